@@ -96,6 +96,11 @@ def judge(evs, violations, stats, reps=None):
             violations.append({'what': 'callVariant aborts while building the fusion graph (ValueError in expand_alignments): nothing is reported',
                                'replay_obj': CK.replay_obj(ev, 'crash'), 'no_input': False, 'finding': CK.F_FUSCRASH})
             continue
+        if ev.exc and CK.is_end_inclusion_crash(ev):
+            stats['end_inclusion_crash'] += 1
+            violations.append({'what': 'callVariant aborts in VariantRecord.to_end_inclusion (IndexError): nothing is reported',
+                               'replay_obj': CK.replay_obj(ev, 'crash'), 'no_input': False, 'finding': CK.F_ENDINCL})
+            continue
         if ev.exc:
             violations.append({'what': 'callVariant aborted with %s: nothing is reported (%s; rule %s)' % (
                                    ev.exc['__exc__'], ev.exc.get('msg', '')[:120], ev.run['rule']),
